@@ -174,16 +174,35 @@ def run(tier):
     spec = dict(seed=sd + 1, N=6000, L=200, K=257, omega=0.37, threads=threads, chunks=[0, 1, 7] if tier == "quick" else [0, 1, 2, 7],
                 reps=2 if tier == "quick" else 3, rep_order=1)
     sweep = run_threads(spec)
-    runs = 0
+    from .. import traces
+    trs = []
     for kern, table in sweep.items():
-        ref = table.get("1/0")
-        for cfgk, digs in table.items():
-            runs += 1
-            V.case({"kernel": kern, "threads/chunk": cfgk}, True)
-            if len(digs) != 1 or digs != ref:
-                V.violation(f"{PID}|threads|{kern}|differs_from_single_thread",
-                            {"kind": "threads", "spec": spec, "kernel": kern, "config": cfgk, "digests": digs, "reference": ref,
-                             "message": f"{kern} with threads/chunksize {cfgk} gave {digs}, single thread gave {ref}"})
+        order_seen = []
+        ev = []
+        for cfgk, digs in table.items():           # insertion order: threads ascending, first is "1/0"
+            for d in digs:
+                if d not in order_seen:
+                    order_seen.append(d)
+            thr, ch = cfgk.split("/")
+            ev.append({"thr": int(thr), "chunk": int(ch), "dig": order_seen.index(digs[0]) + 1, "ndig": len(digs)})
+        trs.append({"meta": {"kernel": kern}, "c": {}, "ev": ev})
+    vd, tres = traces.validate("ScheduleTrace", f"{PID}_schedtrace", trs)
+    V.model(tres, "ScheduleTrace.tla (thread x chunk sweep, bitwise digests)")
+    V.add("traces_validated_against_impl", len(trs))
+    runs = 0
+    for t, v in zip(trs, vd):
+        runs += len(t["ev"])
+        for e in t["ev"]:
+            V.case({"kernel": t["meta"]["kernel"], "thr": e["thr"], "chunk": e["chunk"]}, True)
+        seen = set()
+        for (l, clause) in v:
+            if clause in seen:
+                continue
+            seen.add(clause)
+            e = t["ev"][l - 1]
+            V.violation(f"{PID}|threads|{t['meta']['kernel']}|{clause}",
+                        {"kind": "threads", "spec": spec, "kernel": t["meta"]["kernel"], "event": e,
+                         "message": f"{t['meta']['kernel']} with {e['thr']} threads, chunk size {e['chunk']}: {clause} (digest #{e['dig']}, {e['ndig']} distinct among repetitions)"})
     V.set("thread_chunk_configurations", runs)
     # (3) call histories on one analyzer
     mh = 3 if tier == "quick" else 4
